@@ -175,6 +175,11 @@ def run_case(case, ctx):
     sts = ps.trains(case)
     ps.prime(ctx, case, sts, (pyspike.spike_train_order_profile, pyspike.spike_train_order),
              pair_only=(pyspike.spike_directionality,))
+    ps.judge_twice(case, ctx, sts, _judge)
+
+
+def _judge(case, ctx, sts):
+    import pyspike
     trs, T0, T1, m, mt = _model(case)
     sel = _sel(case)
     kw = ps.kw(case)
